@@ -508,6 +508,17 @@ theorem restart_untouched (n : Name) (st : Store) : Untouched n st (restart st) 
   · exact prune_untouched n st
   · exact Untouched.refl n st
 
+theorem restartWith_preserves_inv {hash : Bytes → Digest} (env : Env) {st : Store} (h : Inv hash st) :
+    Inv hash (restartWith env st) := by
+  unfold restartWith; split
+  · exact h
+  · exact restart_preserves_inv h
+
+theorem restartWith_untouched (env : Env) (n : Name) (st : Store) : Untouched n st (restartWith env st) := by
+  unfold restartWith; split
+  · exact Untouched.refl n st
+  · exact restart_untouched n st
+
 theorem readable_restart (st : Store) (n : Name) : readable (restart st) n = readable st n := by
   unfold restart; split
   · exact readable_prune st n
@@ -777,6 +788,25 @@ theorem deleteUnused_seqOK {hash : Bytes → Digest} (env : Env) (hord : ∀ l x
   simpa using h2
 
 
+theorem cleanupOld_seqOK {hash : Bytes → Digest} (env : Env) (old : Option Man) (st : Store) :
+    SeqOK hash st (cleanupOld env old st).effs := by
+  unfold cleanupOld
+  split
+  · split
+    · trivial
+    · exact removeLayers_seqOK _ _
+  · trivial
+
+theorem cleanupPull_seqOK {hash : Bytes → Digest} (env : Env) (hord : ∀ l x, x ∈ env.ord l → x ∈ l)
+    (cand : List Digest) (st : Store) : SeqOK hash st (cleanupPull env cand st).effs := by
+  unfold cleanupPull
+  split
+  · trivial
+  · exact deleteUnused_seqOK env hord _ _
+
+theorem cleanupPull_ok (env : Env) (cand : List Digest) (st : Store) : (cleanupPull env cand st).ok = true := by
+  unfold cleanupPull; split <;> rfl
+
 /-! ## writing a manifest / a part record (both variants) -/
 
 def AllScratch (es : List Effect) : Prop := ∀ e ∈ es, isScratchEff e = true
@@ -887,9 +917,7 @@ theorem createHandler_seqOK {hash : Bytes → Digest} (env : Env) (henv : env.ha
       · have := hnl.2.2.2 cfg (by simp)
         simpa [layerOf, henv] using this
     · intro _
-      split
-      · exact removeLayers_seqOK _ _
-      · trivial
+      exact cleanupOld_seqOK env _ _
 
 theorem create_seqOK {hash : Bytes → Digest} (env : Env) (henv : env.hash = hash)
     (n : Name) (ups : List (Digest × Bytes)) (file : Digest) (datas : List Bytes) (cfg : Bytes) (st : Store) :
@@ -1329,7 +1357,7 @@ theorem pull_seqOK {hash : Bytes → Digest} (env : Env) (henv : env.hash = hash
       · apply manifest_put_ok
         intro l hl
         exact hds.2.2 hok l.digest (List.mem_map.mpr ⟨l, hl, rfl⟩)
-      · intro _; exact deleteUnused_seqOK env hord _ _
+      · intro _; exact cleanupPull_seqOK env hord _ _
 
 /-! ## which manifests an operation writes -/
 
@@ -1502,6 +1530,22 @@ theorem manOnly_deleteUnused (N : List Name) (env : Env) (cand : List Digest) (s
   obtain ⟨d, _, rfl⟩ := List.mem_map.mp he
   simp [writes] at hw
 
+theorem manOnly_cleanupOld (N : List Name) (env : Env) (old : Option Man) (st : Store) :
+    ManOnly N (cleanupOld env old st).effs := by
+  unfold cleanupOld
+  split
+  · split
+    · exact manOnly_nil N
+    · exact manOnly_removeLayers _ _ _
+  · exact manOnly_nil N
+
+theorem manOnly_cleanupPull (N : List Name) (env : Env) (cand : List Digest) (st : Store) :
+    ManOnly N (cleanupPull env cand st).effs := by
+  unfold cleanupPull
+  split
+  · exact manOnly_nil N
+  · exact manOnly_deleteUnused _ env _ st
+
 theorem manOnly_exec (env : Env) (op : Op) (st : Store) : ManOnly op.involved (op.exec env st).effs := by
   cases op with
   | upload k d body =>
@@ -1521,9 +1565,7 @@ theorem manOnly_exec (env : Env) (op : Op) (st : Store) : ManOnly op.involved (o
       intro st2
       apply manOnly_andThen (manOnly_writeManifest env _ n _)
       intro st3
-      split
-      · exact manOnly_removeLayers _ _ _
-      · exact manOnly_nil _
+      exact manOnly_cleanupOld _ env _ st3
   | copy src dst =>
     simp only [Op.exec, Op.involved]
     unfold copy
@@ -1559,7 +1601,7 @@ theorem manOnly_exec (env : Env) (op : Op) (st : Store) : ManOnly op.involved (o
       intro st2
       apply manOnly_andThen (manOnly_writeManifest env _ n m)
       intro st3
-      exact manOnly_deleteUnused _ env _ st3
+      exact manOnly_cleanupPull _ env _ st3
 
 
 /-! ## fixed variant (`atomicMan`): a manifest file is old or new, never torn -/
@@ -1695,9 +1737,7 @@ theorem amo_exec (env : Env) (hat : env.atomicMan = true) (op : Op) (st : Store)
       intro st2
       apply amo_andThen_right (amo_writeManifest env hat _ n _)
       intro st3
-      split
-      · exact manOnly_removeLayers _ _ _
-      · exact noMan_nil
+      exact manOnly_cleanupOld _ env _ st3
   | copy src dst =>
     simp only [Op.exec]
     unfold copy
@@ -1729,7 +1769,7 @@ theorem amo_exec (env : Env) (hat : env.atomicMan = true) (op : Op) (st : Store)
       intro st2
       apply amo_andThen_right (amo_writeManifest env hat _ n m)
       intro st3
-      exact manOnly_deleteUnused _ env _ st3
+      exact manOnly_cleanupPull _ env _ st3
 
 /-! ### what the completed operation leaves at a manifest path (fixed variant) -/
 
@@ -1785,9 +1825,7 @@ theorem final_man (env : Env) (hat : env.atomicMan = true) (op : Op) (st : Store
           · split
             · right; left; exact ⟨_, rfl⟩
             · left; rw [hnl, hup]
-          · intro st3; split
-            · exact manOnly_removeLayers _ _ _
-            · exact noMan_nil
+          · intro st3; exact manOnly_cleanupOld _ env _ st3
         · left; rw [hnl, hup]
     · left; exact hup n'
   | copy src dst =>
@@ -1833,7 +1871,7 @@ theorem final_man (env : Env) (hat : env.atomicMan = true) (op : Op) (st : Store
           · split
             · right; left; exact ⟨_, rfl⟩
             · left; rw [noMan_get (hv _), noMan_get hdl]
-          · intro st3; exact manOnly_deleteUnused _ env _ st3
+          · intro st3; exact manOnly_cleanupPull _ env _ st3
         · left; rw [noMan_get (hv _), noMan_get hdl]
       · left; exact noMan_get hdl n'
 
@@ -1898,9 +1936,9 @@ theorem pull_final (env : Env) (hat : env.atomicMan = true) (reg : Digest → Op
       rw [run_andThen, andThen_ok]
       by_cases h2 : (verify env fresh (run dl.effs st)).ok = true
       · simp only [h2, ↓reduceIte, Bool.true_and]
-        rw [get_run_wm_then env hat _ _ _ _ _ _ (fun st3 => manOnly_deleteUnused _ env _ st3), andThen_ok,
-          writeManifest_ok, noMan_get (hv _), noMan_get hdl]
-        simp [deleteUnused]
+        rw [get_run_wm_then env hat _ _ _ _ _ _ (fun st3 => manOnly_cleanupPull _ env _ st3), andThen_ok,
+          writeManifest_ok, noMan_get (hv _), noMan_get hdl, cleanupPull_ok]
+        simp
       · simp only [h2, Bool.false_eq_true, ↓reduceIte, Bool.false_and, cond_false]
         rw [noMan_get (hv _), noMan_get hdl]
     · simp only [h1, Bool.false_eq_true, ↓reduceIte, Bool.false_and, cond_false]
